@@ -388,6 +388,43 @@ func vScripts() []vScript {
 			}
 			dr.opObs(w.obsBy(mem[2], d, k.TxHash[:]), "member")
 		}},
+		{"c14-own-observation-of-a-message-whose-block-time-is-ahead-of-the-clock", func(dr *vDriver, w *vWorld) {
+			// the chain's clock is not the guardian's: a message stamped two hours ahead (and one stamped in 1970) is signed, misses quorum,
+			// and is settled, retried every five minutes and kept like any other: the entry's age runs on the node's clock
+			mem := members(4, 0)
+			dr.opClock(1000)
+			dr.opSetGS(w.set(mem, 0))
+			T := int64(1000)
+			for _, ts := range []time.Time{time.Now().Add(2 * time.Hour).Truncate(time.Second), time.Unix(3600, 0)} {
+				k := w.msg(0)
+				k.Timestamp = ts
+				dr.opMsg(k)
+				dr.opLoop(0)
+			}
+			for _, d := range []int64{31, 270, 31, 300, 31} {
+				if !tick(dr, &T, d) {
+					return
+				}
+			}
+		}},
+		{"c02-peers-first-then-a-cleanup-tick-then-the-own-observation", func(dr *vDriver, w *vWorld) {
+			// two of four guardians sign first; 40 seconds later (one cleanup tick in between) the node observes the message itself: the
+			// parked signatures are still there (signatures for a message the node has not observed are kept for about five minutes) and
+			// the node's own signature completes the quorum
+			mem := members(4, 0)
+			dr.opClock(1000)
+			dr.opSetGS(w.set(mem, 0))
+			k := w.msg(0)
+			d := digestOfMsg(k, 0)
+			T := int64(1000)
+			dr.opObs(w.obsBy(mem[1], d, k.TxHash[:]), "member")
+			dr.opObs(w.obsBy(mem[2], d, k.TxHash[:]), "member")
+			if !tick(dr, &T, 40) {
+				return
+			}
+			dr.opMsg(k)
+			dr.opLoop(0)
+		}},
 		{"c14-pending-entry-older-than-a-day-when-the-guardian-set-rotates", func(dr *vDriver, w *vWorld) {
 			// a signed message without quorum has been retried every five minutes for 25 hours (about 300 of its 14400 retries); then the
 			// guardian set rotates: the entry is still pending, still retried, not dropped because its set was replaced
